@@ -249,6 +249,9 @@ pub async fn run(args: &Args, rep: &mut Reporter) {
                 Err(e) => rep.inconclusive(&format!("files_report: {e}")),
             }
             rep.case(hash.finish(), summaries.len() > 2);
+            if h == 0 {
+                rep.sample(json!({"kind": "untampered account", "config": config.name(), "folders": summaries.len(), "blobs": files.len(), "last_ops": ops.clone()}));
+            }
 
             // ---- completeness ------------------------------------------------------------
             let paths = target.paths();
@@ -285,6 +288,9 @@ pub async fn run(args: &Args, rep: &mut Reporter) {
                             let Ok(r) = r else { continue };
                             let flagged = r.failures.iter().any(|(f, _)| *f == fid);
                             rep.count(&format!("mutations:{}", site.class), 1);
+                            if site.enforced && rep.counter(&format!("mutations:{}", site.class)) == 1 {
+                                rep.sample(json!({"kind": "corruption", "class": site.class, "file": site.file.file_name().map(|f| f.to_string_lossy().to_string()), "offset": site.offset, "mask": mask, "flagged": flagged}));
+                            }
                             let mut hh = Fnv::new();
                             hh.str(&site.file.display().to_string()).u64(site.offset).u64(mask as u64);
                             rep.case(hh.finish(), true);
